@@ -262,6 +262,8 @@ class Interp:
         return ops.normalize(self, sort.fresh(self.ctx.fresh, base))
 
     def truth(self, v):
+        if isinstance(v, z3.ExprRef):
+            raise TypeError("raw z3 term passed to Interp.truth(): wrap it (ops.mk_bool) or use ctx.branch")
         if not isinstance(v, (SV, SObj, SymRecDict)):
             if isinstance(v, StubObj) and hasattr(v, "sym_truth"):
                 return self.truth(v.sym_truth(self))
@@ -1023,6 +1025,17 @@ class Interp:
                 out.append(self.eval(e, frame))
         return out
 
+    def concrete_key(self, k):
+        """a dict key with symbolic integers that the path condition pins to single values (e.g. after `x == 10` was
+        taken) becomes the concrete key; anything else is not modelled"""
+        if isinstance(k, tuple):
+            return tuple(self.concrete_key(x) if (isinstance(x, SV) or (isinstance(x, tuple) and has_sym(x))) else x for x in k)
+        if isinstance(k, SInt):
+            v = self.ctx.pinned_int(k.term)
+            if v is not None:
+                return v
+        raise Unsupported(f"dict display with symbolic key {type(k).__name__} {str(getattr(k, 'term', k))[:200]}")
+
     def e_Dict(self, node, frame):
         d = {}
         for k, v in zip(node.keys, node.values):
@@ -1034,7 +1047,7 @@ class Interp:
             else:
                 kk = self.eval(k, frame)
                 if isinstance(kk, SV) or (isinstance(kk, tuple) and has_sym(kk)):
-                    raise Unsupported("dict display with symbolic key")
+                    kk = self.concrete_key(kk)
                 d[kk] = self.eval(v, frame)
         return d
 
